@@ -36,7 +36,7 @@ NewRecs == << [n |-> <<<<105>>>>, t |-> 1, c |-> 1, ttl |-> <<0, 0, 0, 9>>, name
 Renames == << [t |-> <<2, 122, 122, 0>>, s |-> <<1, 97, 0>>, x |-> TRUE],
               [t |-> <<1, 99, 0>>, s |-> <<1, 66, 1, 97, 0>>, x |-> FALSE],
               [t |-> <<63>> \o [k \in 1..63 |-> 116] \o <<63>> \o [k \in 1..63 |-> 116] \o <<63>> \o [k \in 1..63 |-> 116] \o <<0>>, s |-> <<1, 97, 0>>, x |-> TRUE] >>
-Secs == {"Q", "AN", "NS", "AR"}
+Secs == {"Q", "AN", "NS", "AR", "E"}          \* "E": the EDNS options
 NoCur == [open |-> FALSE, sec |-> "Q", incl |-> FALSE, c |-> [off |-> 0, ne |-> 0, nx |-> 0, tomb |-> TRUE]]
 
 VARIABLES p, v, cur, n, last
@@ -48,7 +48,8 @@ MCInit == /\ i = 0 /\ done = 0 /\ n = 0 /\ cur = NoCur /\ last = [op |-> "init",
                /\ v = ViewMC(p, lay # "plain")
 
 St == [p |-> p, v |-> v, c |-> cur.c]
-IdxOf(bytes, sec, off) == LET rs == SecOf(DecodeT(bytes), sec) IN StartIdx([j \in 1..Len(rs) |-> rs[j].off], off)
+IdxOf(bytes, sec, off) == IF sec = "E" THEN LET os == EdnsOpts(bytes) IN StartIdx([j \in 1..Len(os) |-> os[j].off], off)
+                          ELSE LET rs == SecOf(DecodeT(bytes), sec) IN StartIdx([j \in 1..Len(rs) |-> rs[j].off], off)
 Adopt(pr, op, sec, arg, cnew) ==
   /\ p' = IF pr.ok THEN pr.p ELSE p
   /\ v' = IF pr.ok THEN pr.v ELSE v
@@ -59,28 +60,29 @@ Adopt(pr, op, sec, arg, cnew) ==
 \* a fresh reader is a cursor without a current record: its first next() reads the section's count and offset
 Open(sec, incl) ==
   /\ ~cur.open
-  /\ LET pr == SubNext([p |-> p, v |-> v, c |-> NoCur.c], sec, incl) IN
+  /\ LET fresh == [p |-> p, v |-> v, c |-> NoCur.c]
+         pr == IF sec = "E" THEN SubNextE(fresh) ELSE SubNext(fresh, sec, incl) IN
      /\ pr.ok
      /\ Adopt([ok |-> TRUE, p |-> p, v |-> v], "open", sec, 0, [open |-> TRUE, sec |-> sec, incl |-> incl, c |-> pr.c])
 Advance ==
   /\ cur.open
-  /\ LET pr == SubNext(St, cur.sec, cur.incl) IN
+  /\ LET pr == IF cur.sec = "E" THEN SubNextE(St) ELSE SubNext(St, cur.sec, cur.incl) IN
      Adopt([ok |-> TRUE, p |-> p, v |-> v], "next", cur.sec, 0, IF pr.ok THEN [cur EXCEPT !.c = pr.c] ELSE NoCur)
 Close == cur.open /\ Adopt([ok |-> TRUE, p |-> p, v |-> v], "close", cur.sec, 0, NoCur)
 SetName(a) ==
-  /\ cur.open
+  /\ cur.open /\ cur.sec # "E"
   /\ LET pr == SubSetRawName(St, cur.sec, NewNames[a]) IN Adopt(pr, "set", cur.sec, a, IF pr.ok THEN [cur EXCEPT !.c = pr.c] ELSE cur)
 Del ==
-  /\ cur.open
+  /\ cur.open /\ cur.sec # "E"
   /\ LET pr == SubDelete(St, cur.sec) IN Adopt(pr, "del", cur.sec, 0, IF pr.ok THEN [cur EXCEPT !.c = pr.c] ELSE cur)
 Unc ==
   /\ cur.open
-  /\ LET pr == SubUncompress(St, cur.sec) IN Adopt(pr, "unc", cur.sec, 0, IF pr.ok THEN [cur EXCEPT !.c = pr.c] ELSE cur)
+  /\ LET pr == IF cur.sec = "E" THEN SubUncompressE(St) ELSE SubUncompress(St, cur.sec) IN Adopt(pr, "unc", cur.sec, 0, IF pr.ok THEN [cur EXCEPT !.c = pr.c] ELSE cur)
 Ttl ==
-  /\ cur.open /\ ~cur.c.tomb /\ cur.sec # "Q"
+  /\ cur.open /\ ~cur.c.tomb /\ cur.sec \notin {"Q", "E"}
   /\ LET pr == SubSetTtl(St, <<222, 173, 190, 239>>) IN Adopt(pr, "ttl", cur.sec, 0, cur)
 Ins(sec, r) ==
-  /\ ~cur.open /\ sec # "Q"
+  /\ ~cur.open /\ sec \notin {"Q", "E"}
   /\ LET pr == ObjInsert(p, v.mc, sec, NewRecs[r]) IN
      Adopt([ok |-> pr.ok, p |-> pr.p, v |-> [oq |-> pr.v.oq, oan |-> pr.v.oan, ons |-> pr.v.ons, oar |-> pr.v.oar, oedns |-> pr.v.oedns, ecount |-> pr.v.ecount, mc |-> FALSE]],
            "ins", sec, r, NoCur)
@@ -107,7 +109,7 @@ Coherent == NoFlag(v) = ViewOf(p)
 FlagSound == ~v.mc => PointerFreeT(p)
 CursorSound == (cur.open /\ ~cur.c.tomb) =>
                  /\ IdxOf(p, cur.sec, cur.c.off) # 0
-                 /\ cur.c = CursorAtC(p, cur.sec, cur.c.off)
+                 /\ cur.c = IF cur.sec = "E" THEN OptionAt(p, cur.c.off) ELSE CursorAtC(p, cur.sec, cur.c.off)
                  /\ (cur.sec = "AR" /\ ~cur.incl => U16(p, cur.c.ne) # TOPT \/ last.op \in {"set", "unc", "ttl"})
 
 \* the decoded message after the last step, given the one before
